@@ -34,9 +34,9 @@ impl GlobalUsageAnalysis {
 
         for i in 0..module.global_registry.len() {
             let id = GlobalId(i as u32);
-            // TODO: Currently no analysis of globals
-            // Currently we do not need the usage analysis for default values
-            let usage = LocalUsageAnalysis::default();
+            // A global variable requires everything that its initializer requires
+            let mut usage = LocalUsageAnalysis::default();
+            gather_usage_for_init_opt(&module.global_registry[i].init, &mut usage);
             let valid_insert = result
                 .insert(UsageSymbol::GlobalVariable(id), usage)
                 .is_none();
